@@ -157,6 +157,86 @@ func (a Iterators) Merge(opt IteratorOptions) (Iterator, error) {
 	return NewCallIterator(itr, opt)
 }
 
+// compareAux orders the auxiliary fields of two points with the same name, tags
+// and time. The sorted merge iterators use it to break ties, so that the order of
+// the merged points is a function of the points and not of the input that happens
+// to deliver them. It returns a negative number, zero or a positive number.
+func compareAux(x, y []interface{}) int {
+	if len(x) != len(y) {
+		return 0
+	}
+	for i := range x {
+		if c := compareAuxValue(x[i], y[i]); c != 0 {
+			return c
+		}
+	}
+	return 0
+}
+
+// compareAuxValue compares two auxiliary values. Values of different types are
+// ordered by type: null, boolean, number, string.
+func compareAuxValue(x, y interface{}) int {
+	rank := func(v interface{}) int {
+		switch v.(type) {
+		case nil:
+			return 0
+		case bool:
+			return 1
+		case float64, int64, uint64:
+			return 2
+		case string:
+			return 3
+		}
+		return 4
+	}
+	cmp := func(lt, gt bool) int {
+		if lt {
+			return -1
+		} else if gt {
+			return 1
+		}
+		return 0
+	}
+	switch x := x.(type) {
+	case string:
+		if y, ok := y.(string); ok {
+			return cmp(x < y, x > y)
+		}
+	case float64:
+		switch y := y.(type) {
+		case float64:
+			return cmp(x < y, x > y)
+		case int64:
+			return cmp(x < float64(y), x > float64(y))
+		case uint64:
+			return cmp(x < float64(y), x > float64(y))
+		}
+	case int64:
+		switch y := y.(type) {
+		case int64:
+			return cmp(x < y, x > y)
+		case float64:
+			return cmp(float64(x) < y, float64(x) > y)
+		case uint64:
+			return cmp(x < 0 || uint64(x) < y, x >= 0 && uint64(x) > y)
+		}
+	case uint64:
+		switch y := y.(type) {
+		case uint64:
+			return cmp(x < y, x > y)
+		case float64:
+			return cmp(float64(x) < y, float64(x) > y)
+		case int64:
+			return cmp(y >= 0 && x < uint64(y), y < 0 || x > uint64(y))
+		}
+	case bool:
+		if y, ok := y.(bool); ok {
+			return cmp(!x && y, x && !y)
+		}
+	}
+	return rank(x) - rank(y)
+}
+
 // NewMergeIterator returns an iterator to merge itrs into one.
 // Inputs must either be merge iterators or only contain a single name/tag in
 // sorted order. The iterator will output all points by window, name/tag, then
